@@ -52,6 +52,7 @@ type Style struct {
 	TightAnn         bool              // no blank between a value and the annotation that follows it
 	TightComments    bool              // end-of-line user comments start right after the value (no blank), every other one as a ### block ###
 	SplitAnn         int               // >0: every SplitAnn-th node with two rules or more (or rules and a note) gets two annotations: a multi-line one closing on the next line and a second one starting on that closing line
+	ItemNoteExtras   int               // >0: inside enum lists with item notes every ItemNoteExtras-th item is followed by a note on a line of its own (nobody's) and item notes end in blanks
 	KeyComments      int               // >0: every KeyComments-th property gets a user comment between its key and its colon or between the colon and the value (### c ### on the line, or # c up to the line end with the rest on the next line)
 	CloseLate        int               // >0: every CloseLate-th multi-line annotation of a value that a sibling follows closes on the next line, and the sibling starts on that closing line
 	RuleOrder        func(n int) []int // permutation of rule indexes (nil = as written)
@@ -82,6 +83,7 @@ type printer struct {
 	afterArr bool // a non-empty array was closed and no value has begun since (annotations are not taken there)
 	ann      int  // annotation counter (MixedAnn)
 	inMulti  bool // inside a /* */ annotation
+	ine      int  // enum item counter (ItemNoteExtras)
 	kc       int  // property counter (KeyComments)
 	cl       int  // annotation counter (CloseLate)
 	hasNext  bool // the value being written is followed by a sibling
@@ -424,10 +426,25 @@ func (p *printer) ruleValue(r *ref.SRule, spread bool, level int) {
 				if i < len(r.Enum)-1 {
 					p.w(",")
 				}
+				wrote := false
 				if it.Comment != "" {
 					p.w(" // " + it.Comment)
+					wrote = true
 				} else if p.st.AutoItemNotes {
 					p.w(fmt.Sprintf(" // item %d", i))
+					wrote = true
+				}
+				if p.st.ItemNoteExtras > 0 {
+					p.ine++
+					if p.ine%p.st.ItemNoteExtras == 0 {
+						if wrote {
+							p.w([]string{" ", "\t", " \t "}[(p.ine/p.st.ItemNoteExtras)%3]) // blanks after a note are not part of it
+						}
+						// a note on a line of its own: no item ends on that line
+						p.w(p.st.NL)
+						p.indent(level + 3)
+						p.w("// about the next value")
+					}
 				}
 			}
 			p.w(p.st.NL)
